@@ -33,11 +33,13 @@ Inductive chan_res :=
 | COutOfFuel
 | CUnmodelled.
 
-(* send_continue(), applied to the request under construction *)
+(* send_continue(), applied to the request under construction
+   (the statement `self.request.completed = False` that used to end it was a
+   defect -- F5/F6 -- repaired in /repo by fix e3537e2; see KNOWN_FINDINGS.txt) *)
 Definition send_continue (c : chan) (r : parser) : chan * parser :=
   let r1 := r <| expect_continue := false |> in
   let c1 := c <| outlog := outlog c ++ continue_bytes |> <| sent_continue := true |> in
-  (c1, r1 <| completed := false |>).
+  (c1, r1).
 
 Fixpoint received_loop (fuel : nat) (a : adj) (c : chan) (data : bytes) : chan_res :=
   match fuel with
